@@ -490,16 +490,14 @@ def propagate_MCMC(
     # estimate permuted cumulative transition matrix
     cummat = _get_cummat(trajs=trajs, lagtime=lagtime)
 
-    # do not convert for pytest coverage
-    return shift_data(
+    # map indices back to states
+    return trajs.states[
         _propagate_MCMC(  # pragma: no cover
             cummat=cummat,
             start=idx_start,
             steps=steps,
-        ),
-        np.arange(trajs.nstates),
-        trajs.states,
-    )
+        )
+    ]
 
 
 @numba.njit
